@@ -90,6 +90,28 @@ inline std::size_t good_accwidth(const std::list<unsigned> &values) {
                            [](std::size_t sum, unsigned v) -> std::size_t { return sum + v; });
 }
 
+// F-RANGE2 --------------------------------------------------------------------------------------------------
+inline bool bad_secondrange(const std::list<unsigned> &a, const std::list<unsigned> &b) {
+    return std::is_permutation(a.begin(), a.end(), b.begin());
+}
+
+inline bool good_secondrange(const std::list<unsigned> &a, const std::list<unsigned> &b) {
+    return a.size() == b.size() && std::is_permutation(a.begin(), a.end(), b.begin());
+}
+
+// D-SHIFT ---------------------------------------------------------------------------------------------------
+inline unsigned long long bad_shiftwidth(unsigned v) {
+    unsigned long long mask = 0;
+    mask |= 1 << (v % 64);          // shifted as int
+    return mask;
+}
+
+inline unsigned long long good_shiftwidth(unsigned v) {
+    unsigned long long mask = 0;
+    mask |= 1ULL << (v % 64);
+    return mask;
+}
+
 // D-STRPLUS -------------------------------------------------------------------------------------------------
 inline std::string bad_strplus(unsigned vertex) {
     return std::string("Vertex index out of range: " + vertex);      // pointer arithmetic on the literal
@@ -129,6 +151,10 @@ void bgcheck_fixture_use() {
     (void)BaseGraph::fixture::good_noexcept("a b");
     (void)BaseGraph::fixture::bad_accwidth(l);
     (void)BaseGraph::fixture::good_accwidth(l);
+    (void)BaseGraph::fixture::bad_secondrange(l, l);
+    (void)BaseGraph::fixture::good_secondrange(l, l);
+    (void)BaseGraph::fixture::bad_shiftwidth(3);
+    (void)BaseGraph::fixture::good_shiftwidth(3);
     (void)BaseGraph::fixture::bad_strplus(3);
     (void)BaseGraph::fixture::good_strplus(3);
     std::istringstream in("x");
